@@ -13,6 +13,7 @@ tokens → tokens), LexRoundtrip.
 import EvalexprVerif.Proofs.LexRoundtrip
 import EvalexprVerif.Proofs.LexExt
 import EvalexprVerif.Proofs.AgreeToken
+import EvalexprVerif.Proofs.AgreeFnInterface
 
 namespace Evalexpr.Spec.C07
 open Evalexpr Evalexpr.Spec
@@ -44,6 +45,19 @@ theorem C07_tree_of_tokens_ext (ps : List (Gap × PTok)) (g : Gap)
     buildOperatorTree (renderFrom ps g) = tokensToOperatorTree (ps.map (·.2.tok)) := by
   unfold buildOperatorTree
   rw [C07_roundtrip_ext ps g hp ha]
+
+/-- **C07 about the code as translated on this run**: the rendered lexer (`Gen.tokenize`, fuel = length + 1 as the rendered
+interface functions pass it) returns exactly the tokens of every admissible rendering, and the rendered
+`build_operator_tree` — rendered lexer, then rendered tree builder — returns the tree of those tokens: the whole path from
+source text to operator tree is code translated on this run. -/
+theorem C07_roundtrip_generated (ps : List (Gap × PTok)) (g : Gap)
+    (hp : ∀ p ∈ ps, p.2.PrintableX) (ha : AdmissibleX ps g) :
+    Gen.tokenize (Rs.fuel_chars (renderFrom ps g)) (renderFrom ps g) = .ok (ps.map (·.2.tok)) := by
+  rw [AgreeFn.fn_tokenize_fuel_chars]; exact C07_roundtrip_ext ps g hp ha
+theorem C07_tree_generated (ps : List (Gap × PTok)) (g : Gap)
+    (hp : ∀ p ∈ ps, p.2.PrintableX) (ha : AdmissibleX ps g) :
+    Gen.build_operator_tree (renderFrom ps g) = tokensToOperatorTree (ps.map (·.2.tok)) := by
+  rw [AgreeFn.fn_build_operator_tree_agree]; exact C07_tree_of_tokens_ext ps g hp ha
 
 /-- `<digits>e`, a sign and a token that is not a word are three tokens, however tightly written -/
 theorem C07_sign_before_string : tokenize cl!"1e+\"3\"" = .ok [.identifier cl!"1e", .plus, .string cl!"3"] :=
